@@ -987,6 +987,8 @@ class SLDMap(FeatureNormalizer):
 
 
 class OmegaMap(FeatureNormalizer):
+    code = "Omega"
+
     def __init__(self, i_n, i_s, i_alpha, c, B, C, bounds=None):
         self.i_n = i_n
         self.i_s = i_s
